@@ -461,7 +461,7 @@ def _brms(itf, config, r, p, *args, **kw):
 def _band_setup(case):
     """real PSD of the case + its radial frequency grid + band edges derived from the case"""
     h, w, ux, uy, p = _real_psd(case)
-    r = np.hypot(ux, uy)
+    r = np.hypot(ux, uy) if ux.shape == uy.shape else np.zeros((0, 0))
     if case.get('rptype', 'float64') != 'float64':      # r and the PSD handed over in a narrower type
         r = r.astype(DTYPES[case['rptype']])
         p = p.astype(DTYPES[case['rptype']])
@@ -517,6 +517,8 @@ def pred_band(case):
         h, w, ux, uy, p, r, groups, cuts = _band_setup(case)
     except Exception as ex:
         return [('psd', f'psd raised {type(ex).__name__}: {ex}')]
+    if p.shape != (m, n) or r.shape != (m, n):
+        return [('psd_axes', f'shapes psd {p.shape}, hypot(ux, uy) {r.shape} for a {m}x{n} map')]
     if not _valid_window(w, (m, n)):
         # no usable window (sum w^2 = 0 / NaN): the PSD is 0/0 and the property does not apply — unless a usable window was due
         return [] if not _expect_valid_window(case) else [('window', f'no usable window for a {m}x{n} map, window={case["window"]!r}')]
@@ -731,11 +733,13 @@ def pred_methods(case):
         return [('ifg_methods', f'Interferogram.psd raised {type(ex).__name__}: {ex}')]
     if not np.array_equal(ifg.data, data, equal_nan=True):
         out.append(('psd_pure', 'Interferogram.psd() modified the data of the object'))
-    r = np.hypot(ux, uy)
+    ux, uy, p = np.asarray(ux), np.asarray(uy), np.asarray(p)
     Pd = np.asarray(P.data)
-    if Pd.shape != (m, n):
-        return out + [('ifg_methods', f'Interferogram.psd().data has shape {Pd.shape} for a {m}x{n} map')]
-    if not (_close(Pd, p, 1e-12) and _close(P.x, ux, 1e-12) and _close(P.y, uy, 1e-12) and _close(P.r, r, 1e-12)):
+    if Pd.shape != (m, n) or p.shape != (m, n) or ux.shape != (m, n) or uy.shape != (m, n):
+        return out + [('psd_axes', f'shapes Interferogram.psd().data {Pd.shape}, psd {p.shape}, ux {ux.shape}, uy {uy.shape} for a {m}x{n} map')]
+    r = np.hypot(ux, uy)
+    rt = max(1e-12, 8 * float(np.finfo(np.asarray(P.r).dtype).eps)) if np.asarray(P.r).dtype.kind == 'f' else 1e-12
+    if not (_close(Pd, p, 1e-12) and _close(P.x, ux, 1e-12) and _close(P.y, uy, 1e-12) and _close(P.r, r, rt)):
         out.append(('ifg_methods', 'Interferogram.psd() data / x / y / r differ from psd(self.data, self.dx) and its axes'))
     if not (np.ndim(P.dx) == 0 and abs(float(P.dx) - 1 / (n * dx)) <= 1e-12 / (n * dx)):
         out.append(('ifg_psd_dx', f'Interferogram.psd().dx = {np.asarray(P.dx).tolist()!r}, the x frequency step is {1 / (n * dx)!r}'))
@@ -1315,7 +1319,7 @@ def _correspondence(ctx):
             h, w, ux, uy, p, r, groups, cuts = _band_setup(case)
         except Exception:
             continue
-        if not _valid_window(w, (m, n)):
+        if not _valid_window(w, (m, n)) or p.shape != (m, n) or r.shape != (m, n):
             continue
         a, b, c, on = _pick_edges(case, groups, cuts)
         bands = [(0.0, float(r.max())), (a, c), (b, c)]
